@@ -6,6 +6,7 @@
 //verif:replace (*net.IPNet).String vC10netString
 //verif:replace (github.com/libp2p/go-libp2p/core/peer.ID).String vC10peerString
 //verif:replace net.ParseCIDR vC10parseCIDR
+//verif:replace (net/netip.Addr).String vC10netipString
 //verif:replace github.com/ipfs/go-datastore.NewKey vC10newKey
 //verif:shard VerifC10aDecision 8
 //verif:shard VerifC10bPersistence 16
@@ -20,6 +21,7 @@ import (
 	"context"
 	"errors"
 	"net"
+	"net/netip"
 
 	"github.com/ipfs/go-datastore"
 	"github.com/ipfs/go-datastore/query"
@@ -49,6 +51,18 @@ func vC10ipString(ip net.IP) string {
 		return "4:" + string(b)
 	}
 	return "6:" + string(b)
+}
+
+// net/netip's text form (not used by the gater today; a change that formats addresses through netip is then
+// decided instead of running into the formatter with symbolic bytes): injective, and - like the real one -
+// it does NOT unmap IPv4-mapped IPv6 addresses
+func vC10netipString(a netip.Addr) string {
+	if a.Is4() {
+		b := a.As4()
+		return "4:" + string(b[:])
+	}
+	b := a.As16()
+	return "6:" + string(b[:])
 }
 
 func vC10netString(n *net.IPNet) string {
